@@ -220,6 +220,19 @@ def check_post(e: Engine, c: Contract, st: State, val: SV, entry: State):
     for name, expr in c.ensures.items():
         g = e.eval_spec(expr, st, bound, val, entry, c)
         e.emit(f"post:{name}", g, st, kind="post")
+    if c.fresh_result and val.ty.kind == "obj":
+        # the declared freshness of the result (assumed at call sites) is an obligation of the body
+        e.emit("post:fresh_result", And(Not(val.none), Not(z3.Select(entry.alive, val.v))), st, kind="post")
+    for path in c.fresh_paths:
+        v = val
+        sm = e.spec_mode
+        e.spec_mode = True
+        try:
+            for f in path.split(".")[1:]:
+                v = e.load_field(st, v, f)
+        finally:
+            e.spec_mode = sm
+        e.emit(f"post:fresh:{path}", And(Not(v.none), Not(z3.Select(entry.alive, v.v)), z3.Select(st.alive, v.v)), st, kind="post")
     if c.pure_result is not None:
         want = e.eval_spec_value(c.pure_result, st, bound, c, val, entry)
         e.emit("post:pure_result", e.equal(st, val, want), st, kind="post")
